@@ -3,7 +3,9 @@ package main
 import (
 	"encoding/json"
 	"math/rand"
+	"strings"
 	"time"
+	"unicode/utf8"
 
 	"github.com/tdakkota/docker-logql/internal/logql"
 	"github.com/tdakkota/docker-logql/internal/logql/logqlengine"
@@ -100,5 +102,27 @@ func (famSanitize) Exec(scn int, raw json.RawMessage, t *Trace, _ map[string]str
 		}
 	}
 	t.Ev(scn, "Selected", F{"label": B(out), "selected": sel, "others": others})
+	// the same key as a JSON field extracted without a field list: `{} | json` must expose it under the sanitised name
+	// (keys that a JSON text cannot carry verbatim - invalid UTF-8, control bytes - are left out)
+	if utf8.ValidString(key) && !strings.ContainsAny(key, "\x00\x01\x02\x03\x04\x05\x06\x07\x08\t\n\x0b\x0c\r\x0e\x0f\x10\x11\x12\x13\x14\x15\x16\x17\x18\x19\x1a\x1b\x1c\x1d\x1e\x1f\x7f") {
+		doc, _ := json.Marshal(map[string]string{key: "v"})
+		store := &MemStore{recs: []MemRec{{ID: 1, TS: []int{1700000001, 0}, Line: B(string(doc)), Attrs: [][2][]int{}, Doc: [][2][]int{}}}, caps: CapsIn{Label: []string{}, Line: []string{}}}
+		r := evalWithWatchdog(logqlengine.NewEngine(store, logqlengine.Options{}), "{} | json", logqlengine.EvalParams{Start: tsOf(Base.Add(-10 * time.Second)), End: tsOf(Base.Add(100 * time.Second)), Limit: -1}, 20*time.Second)
+		names := [][]int{}
+		val := []int{}
+		if r.Err == nil && r.Panic == nil && !r.Hang {
+			if st, ok := r.Data.GetStreamsResult(); ok {
+				for _, e := range flatten(st.Result) {
+					for k, v := range e.Labels {
+						names = append(names, B(k))
+						if k == out {
+							val = B(v)
+						}
+					}
+				}
+			}
+		}
+		t.Ev(scn, "Extracted", F{"names": names, "val": val})
+	}
 	return nil
 }
